@@ -5,6 +5,7 @@ import Dhlldv.Spec.Graded
 import Dhlldv.Spec.SlurryObj
 import Dhlldv.Spec.Memo
 import Dhlldv.Spec.Pipeline
+import Dhlldv.Spec.Fracs
 import Dhlldv.Gen.Effects
 
 /-! Line-protocol dispatcher over the hand-written Spec models. -/
@@ -127,6 +128,25 @@ def dispatch (op : String) (a : Array String) : Option String :=
       let headOf : List (Spec.Pipe.Sec Float) → Float := fun pre => heads.getD (pre.length - 1) (0.0 / 0.0)
       let (locs, hs, elevs) := Spec.Pipe.gradeLine (α := Float) (Gen.fOfBits a[0]!) headOf secs
       some (" ".intercalate ((locs ++ hs ++ elevs).map Gen.bitsOf))
+  | "spec.fracs" =>
+    -- spec.fracs Dp nu rhol rhos <numFracs> <n> f1 d1 … fn dn   (input points sorted by fraction)
+    if a.size < 6 then none else
+    let n := (a[5]!).toNat!
+    if a.size != 6 + 2 * n then none else
+    let pts := (List.range n).map fun i => (Gen.fOfBits a[6 + 2 * i]!, Gen.fOfBits a[7 + 2 * i]!)
+    let f := fun i => Gen.fOfBits a[i]!
+    let R := Spec.Fracs.createFracs (α := Float) Nat.toFloat (fun x => x.floor.toUInt64.toNat) pts (f 0) (f 1) (f 2) (f 3) (a[4]!).toNat!
+    some (" ".intercalate ([Gen.bitsOf R.X, toString R.between, (if R.branchXpos then "1" else "0")] ++
+      (R.gsd.map fun p => Gen.bitsOf p.1 ++ ":" ++ Gen.bitsOf p.2)))
+  | "spec.getdx" =>
+    -- spec.getdx <n> f1 d1 … fn dn frac
+    if a.size < 2 then none else
+    let n := (a[0]!).toNat!
+    if a.size != 2 + 2 * n then none else
+    let gsd := (List.range n).map fun i => (Gen.fOfBits a[1 + 2 * i]!, Gen.fOfBits a[2 + 2 * i]!)
+    some (match Spec.Fracs.getDx (α := Float) gsd (Gen.fOfBits a[1 + 2 * n]!) with
+      | some v => Gen.bitsOf v
+      | none => "ValueError")
   | _ => none
 
 end Spec
